@@ -8,6 +8,7 @@ use duckscript::types::command::{Command, CommandInvocationContext, CommandResul
 use duckscript::types::error::ScriptError;
 use duckscript::types::instruction::Instruction;
 use duckscript::types::runtime::StateValue;
+use std::collections::HashSet;
 
 #[derive(Clone)]
 pub(crate) struct AliasCommand {
@@ -85,6 +86,10 @@ impl Command for AliasCommand {
         } else {
             let start_count = context.variables.len();
             let line_context_name = set_line_context_name(&self.scope_name, context.state);
+            let start_handles: HashSet<String> = get_handles_sub_state(context.state)
+                .keys()
+                .cloned()
+                .collect();
 
             // define script arguments
             let mut handle_option = None;
@@ -128,6 +133,14 @@ impl Command for AliasCommand {
                     }
                 }
                 None => (),
+            }
+            match flow_result {
+                Some(CommandResult::Error(_)) | Some(CommandResult::Crash(_)) => {
+                    // the script stopped in the middle, release the handles it created as nothing can reference them
+                    let handle_state = get_handles_sub_state(context.state);
+                    handle_state.retain(|key, _| start_handles.contains(key));
+                }
+                _ => (),
             }
             clear(&self.scope_name, context.variables);
             clear_call_stacks_for_context(&self.scope_name, context.state);
